@@ -154,6 +154,13 @@ def run(ctx, rep):
     if not ok:
         rep.finding(R3, 'C12.R3/ParseContext.advance', m.loc(PAR, adv), 'ParseContext.advance', 'no longer skips whitespace after a symbol')
 
+    R5 = rep.rule('C12.R5', 'local injectivity of the standard writer (folded): distinct (operator, operands) shapes render to distinct strings under every writer option set')
+    for ok, what, detail, where in writer_injectivity(m):
+        rep.instance(R5, ok=ok, sample=dict(case=what, detail=detail), nontrivial=('inj', what))
+        rep.consult(where)
+        if not ok:
+            rep.finding(R5, f'C12.R5/{what}', where.split(' ')[0], 'StandardLexWriter', f'{what}: {detail}')
+
     R4 = rep.rule('C12.R4', 'dispatch coverage: writer handles all nine lexical types; parser dispatches every sentence-starting symbol type')
     wm = m.getattr(ClassRefW('LexWriter'), '_methodmap')
     need = {'Operator', 'Quantifier', 'Predicate', 'Constant', 'Variable', 'Atomic', 'Predicated', 'Quantified', 'Operated'}
@@ -353,6 +360,80 @@ def grammar_roundtrip(m):
         r = it.safe(rc, [parser, ctx])
         ok = r == (3, sub) and ctx.pos == len(stream) - 1
         out.append((ok, f'read coords subscript={sub}', f'parser reads {r!r} leaving pos={ctx.pos} of {len(stream)}', loc(PAR, rc, 'DefaultParser._read_coords')))
+    return out
+
+
+def writer_injectivity(m):
+    from ..minieval import Interp, Obj, Raises
+    import itertools
+    out = []
+    wo = m.func(WR, 'StandardLexWriter._write_operated')
+    wp = m.func(WR, 'StandardLexWriter._write_predicated')
+    bp = m.func(WR, 'LexWriter._write_predicated')
+    where = f'{m.loc(WR, wo)} StandardLexWriter._write_operated'
+    PredicatedT, AtomicT, OperatedT = Obj('Predicated'), Obj('Atomic'), Obj('Operated')
+    ops = {n: Obj(f'Operator.{n}', arity=a, name=n) for n, a in (('Negation', 1), ('Assertion', 1), ('Possibility', 1), ('Conjunction', 2), ('Disjunction', 2))}
+    Operator = Obj('Operator', **ops)
+    Identity = Obj('Predicate.Identity', arity=2, name='=')
+    Fpred = Obj('Predicate.F', arity=2, name='F')
+    G1 = Obj('Predicate.G', arity=1, name='G')
+    Predicate = Obj('Predicate', Identity=Identity)
+    Marking = Obj('Marking', whitespace='WS', paren_open='PO', paren_close='PC')
+
+    class Strings(dict):
+        def __missing__(self, k):
+            if isinstance(k, tuple):
+                return '<' + '|'.join(getattr(x, 'name', str(x)) for x in k) + '>'
+            return f'<{getattr(k, "name", k)}>'
+    strings = Strings({'WS': ' ', 'PO': '(', 'PC': ')'})
+    it = Interp(dict(Operator=Operator, Predicate=Predicate, Predicated=PredicatedT, Marking=Marking, NotImplementedError='NotImplementedError',
+                     ValueError=lambda *a: 'ValueError'), where='lang/writing.py StandardLexWriter')
+
+    class Seq(tuple):
+        pass
+
+    def predicated(pred, *params):
+        s_ = Seq(params)
+        s_._typ, s_.predicate, s_.name = PredicatedT, pred, f'{pred.name}({",".join(p.name for p in params)})'
+        return s_
+    a, b = Obj('a', name='a'), Obj('b', name='b')
+    A, B = Obj('A', typ=AtomicT, name='A'), Obj('B', typ=AtomicT, name='B')
+    ident, fab, ga = predicated(Identity, a, b), predicated(Fpred, a, b), predicated(G1, a)
+
+    def operated(op, *operands):
+        s_ = Seq(operands)
+        s_._typ, s_.operator = OperatedT, op
+        s_.lhs = operands[0]
+        s_.rhs = operands[-1]
+        s_.name = f'{op.name}({",".join(o.name for o in operands)})'
+        return s_
+    for opts in (dict(identity_infix=True, max_infix=0, drop_parens=True), dict(identity_infix=False, max_infix=0, drop_parens=True),
+                 dict(identity_infix=True, max_infix=3, drop_parens=False)):
+        w = Obj('writer', opts=opts, strings=strings)
+
+        def write(x):
+            if getattr(x, '_typ', None) is PredicatedT:
+                return it.call(wp, [w, x])
+            if getattr(x, '_typ', None) is OperatedT:
+                return it.call(wo, [w, x])
+            return f'<{x.name}>'
+        w._write = write
+        sup = Obj('super')
+        sup._write_predicated = lambda s_: it.call(bp, [w, s_])
+        it.g['super'] = lambda: sup
+        shapes = [operated(ops[o], x) for o in ('Negation', 'Assertion', 'Possibility') for x in (ident, fab, ga, A)]
+        shapes += [operated(ops[o], x, y) for o in ('Conjunction', 'Disjunction') for x, y in ((A, B), (B, A), (ident, A))]
+        shapes += [ident, fab, ga, predicated(Identity, b, a)]
+        rendered = {}
+        for sh in shapes:
+            r = it.safe(wo if getattr(sh, '_typ', None) is OperatedT else wp, [w, sh])
+            if isinstance(r, Raises):
+                out.append((False, f'render {sh.name} {opts}', f'raises {r.text}', where))
+                continue
+            clash = rendered.get(r)
+            ok = clash is None
+            out.append((ok, f'{sh.name} opts={sorted(opts.items())}', f'renders {r!r}' + (f', the same string as the distinct sentence {clash}' if clash else ''), where))
+            rendered.setdefault(r, sh.name)
     return out
 
 
